@@ -333,7 +333,7 @@ func c08Stress(c *rt.C) {
 func c08Backup(c *rt.C) {
 	r := c.Rng
 	delta := c.Index%2 == 0
-	keep := (c.Index/2)%2 == 0 // the caller keeps its own reference across the backup
+	keep := (c.Index/2)%2 == 0  // the caller keeps its own reference across the backup
 	older := (c.Index/4)%2 == 0 // an older snapshot is open during the backup
 	db := OpenDB(DBOpt{Mem: []string{"go", "poison"}[c.Index%2], Delta: delta})
 	w := db.N.NewWriter()
